@@ -109,3 +109,25 @@ def variant_is(asg, role, variants, name, const_roles=None):
     if d == "other":
         return None
     return variants[d] == name if isinstance(d, int) and d < len(variants) else None
+
+
+def variant_of(asg, role, variants):
+    """Which variant does the value with role `role` have under the assignment?  From a match on its discriminant, or from equality
+    tests against variant constants (roles named like the variants) by elimination.  None if undetermined or inconsistent."""
+    d = asg["disc"].get(role)
+    if isinstance(d, int) and d < len(variants):
+        return variants[d]
+    eq, ne = [], []
+    for v in variants:
+        r = D.rel_of(asg, role, v)
+        if r is None:
+            continue
+        (eq if r == "=" else ne).append(v)
+    if len(eq) == 1:
+        return eq[0]
+    if len(eq) > 1:
+        return None
+    rest = [v for v in variants if v not in ne]
+    if len(rest) == 1 and ne:
+        return rest[0]
+    return None
